@@ -7,7 +7,7 @@ BUILDS = cc.BUILDS
 CASE_TIMEOUT = cc.CASE_TIMEOUT
 LEAN_MODULES = []
 THEOREMS = []
-MIX = [('full',4),('sync',3),('yield_err',1)]
+MIX = [('full',4),('sync',3),('yield_err',1),('nonasync',1)]
 RULE = ("grammar-generated task programs (profiles %s; trees and DAGs of tasks, 1-3 batch kinds with priority overrides "
         "and raising flushes, nested yield structures, errors, try/except, synchronous re-entry, contexts) interpreted on "
         "the real scheduler and replayed in the Lean machine with the implementation's flush choices; non-trivial = at "
